@@ -992,8 +992,8 @@ func init() {
 			return nil
 		},
 		Streams: []*vf.Stream{
-			{Name: "blocks", Init: c18init, N: func(t vf.Tier) int { return t.Sz(10000, 150000) }, Run: c16blockCase},
-			{Name: "txs", Init: c18init, N: func(t vf.Tier) int { return t.Sz(50000, 1000000) }, Run: c16txCase},
+			{Name: "blocks", Shards: 8, Init: c18init, N: func(t vf.Tier) int { return t.Sz(60000, 400000) }, Run: c16blockCase},
+			{Name: "txs", Shards: 8, Init: c18init, N: func(t vf.Tier) int { return t.Sz(300000, 3000000) }, Run: c16txCase},
 		},
 	})
 }
